@@ -9,19 +9,19 @@ fn number_decode_stub(data: &[u8]) -> Option<usize> {
     if data.len() == 1 && data[0] == b'~' {
         return Some(1); // probe used by stub_active(): the real function rejects it
     }
-    if data.len() == 0 {
-        Some(0)
-    } else if data.len() == 1 && data[0] >= b'0' && data[0] <= b'9' {
-        Some(unsafe { VALS[(data[0] - b'0') as usize] })
-    } else {
-        // harness buffers never contain other digit strings; anything else is a non-number
-        let mut i = 0;
-        while i < data.len() {
-            if !(data[i] >= b'0' && data[i] <= b'9') { return None; }
-            i += 1;
-        }
-        Some(kani::any())
+    if data.len() == 1 && data[0] >= b'a' && data[0] <= b'j' {
+        // symbolic numeric field k: "some digit string whose value is VALS[k]"
+        return Some(unsafe { VALS[(data[0] - b'a') as usize] });
     }
+    // concrete digit strings of the harness buffer: the contract value dec(data) (saturating), None for non-digits
+    let mut r = 0usize;
+    let mut i = 0;
+    while i < data.len() {
+        if !(data[i] >= b'0' && data[i] <= b'9') { return None; }
+        r = r.saturating_mul(10).saturating_add((data[i] - b'0') as usize);
+        i += 1;
+    }
+    Some(r)
 }
 // true under Kani (stub installed); false when a counterexample is replayed natively, where the REAL
 // number_decode runs: the harness then feeds real decimal digit strings instead of marker digits.
@@ -29,7 +29,7 @@ fn stub_active() -> bool { number_decode(b"~").is_some() }
 fn expand(buf: &[u8], v: &[usize; 10]) -> Vec<u8> {
     let mut out = Vec::new();
     for &c in buf {
-        if c >= b'0' && c <= b'9' { out.extend(v[(c - b'0') as usize].to_string().bytes()); } else { out.push(c); }
+        if c >= b'a' && c <= b'j' { out.extend(v[(c - b'a') as usize].to_string().bytes()); } else { out.push(c); }
     }
     out
 }
@@ -59,47 +59,29 @@ fn xterm256(i: usize) -> (u8, u8, u8) {
 
 // ---------------------------------------------------------------------------------------------
 // Reference SGR interpreter (ECMA-48 / xterm ctlseqs / kitty underline extension), written on byte
-// indices only. Input alphabet: marker digits, ';' and ':'; no two digits adjacent (one marker per field).
+// indices only. Input alphabet: decimal numbers, symbolic fields 'a'..'j' (any usize, delivered by the number_decode contract stub), ';' and ':'.
 // `defined == false` marks inputs whose meaning the property does not fix (codes FaceModify cannot express:
 // 7/27 reverse, 39/49/59 default colours, 2/8/28 faint/conceal, 6/26 rapid blink; 21 whose meaning differs between
 // ECMA-48 "double underline" and the widespread "bold off"; malformed extended-colour forms; underline
 // sub-styles > 5): the harness does not compare those.
 struct RefSgr { face: FaceModify, defined: bool }
 
-fn ref_val(buf: &[u8], lo: usize, hi: usize, v: &[usize; 10]) -> usize {
-    if lo >= hi { 0 } else { v[(buf[lo] - b'0') as usize] }
-}
-// k-th `sep`-separated field of buf[lo..hi): (start, end); None if there are fewer fields
-fn ref_field(buf: &[u8], lo: usize, hi: usize, sep: u8, k: usize) -> Option<(usize, usize)> {
-    let mut idx = 0;
-    let mut start = lo;
-    let mut i = lo;
-    while i <= hi {
-        if i == hi || buf[i] == sep {
-            if idx == k { return Some((start, i)); }
-            idx += 1;
-            start = i + 1;
-        }
-        i += 1;
-    }
-    None
-}
-fn ref_count(buf: &[u8], lo: usize, hi: usize, sep: u8) -> usize {
-    let mut n = 1;
-    let mut i = lo;
-    while i < hi { if buf[i] == sep { n += 1; } i += 1; }
-    n
-}
+// A parsed parameter template (produced by the harness generator from the same template text that is fed,
+// as bytes, to the real decoder): groups separated by ';', fields inside a group separated by ':'.
+#[derive(Clone, Copy)]
+enum F { Num(usize), Sym(usize), Empty }
+fn fval(f: F, v: &[usize; 10]) -> usize { match f { F::Num(n) => n, F::Sym(k) => v[k], F::Empty => 0 } }
+
 fn ref_ansi(i: usize) -> RGBA { let (r, g, b) = xterm256(i); RGBA::new(r, g, b, 255) }
 
-fn ref_sgr(buf: &[u8], len: usize, v: &[usize; 10]) -> RefSgr {
+fn ref_sgr(groups: &[&[F]], v: &[usize; 10]) -> RefSgr {
     let mut out = RefSgr { face: FaceModify::default(), defined: true };
-    let ngroups = ref_count(buf, 0, len, b';');
+    let ngroups = groups.len();
     let mut gi = 0;
     while gi < ngroups {
-        let (gs, ge) = ref_field(buf, 0, len, b';', gi).unwrap();
-        let nsub = ref_count(buf, gs, ge, b':');
-        let sub = |k: usize| -> usize { let (a, b) = ref_field(buf, gs, ge, b':', k).unwrap(); ref_val(buf, a, b, v) };
+        let grp = groups[gi];
+        let nsub = grp.len();
+        let sub = |k: usize| -> usize { fval(grp[k], v) };
         let code = sub(0);
         let mut consumed = 1;
         match code {
@@ -144,10 +126,7 @@ fn ref_sgr(buf: &[u8], len: usize, v: &[usize; 10]) -> RefSgr {
                 } else {
                     // semicolon form: the following groups (plain numbers) carry mode and components
                     let g = |k: usize| -> Option<usize> {
-                        if gi + k >= ngroups { return None; }
-                        let (a, b) = ref_field(buf, 0, len, b';', gi + k).unwrap();
-                        if ref_count(buf, a, b, b':') != 1 { return None; }
-                        Some(ref_val(buf, a, b, v))
+                        if gi + k >= ngroups || groups[gi + k].len() != 1 { None } else { Some(fval(groups[gi + k][0], v)) }
                     };
                     match g(1) {
                         Some(5) => if let Some(n) = g(2) { if n < 256 { color = Some(ref_ansi(n)); consumed = 3; } },
@@ -167,4 +146,3 @@ fn ref_sgr(buf: &[u8], len: usize, v: &[usize; 10]) -> RefSgr {
     }
     out
 }
-
